@@ -91,18 +91,32 @@ def shell_phase(c, tier):
     for i, b in enumerate(docs):
         cases.append(dict(id='sh%d' % i, doc=b['doc'], src=b['src'], mode=shell14.MODES[i % 5], ml=True, mainlang='en-GB',
                           single='z.B.||', ltflag='Q', flag='a'))
+    shell_judge(c, cases)
+
+
+def shell_judge(c, cases):
+    import re
+    from checks import shell14
     recs = c.drive(cases, shell14.drive_e2e, chunksize=4)
     ok = [x for x in recs if x['outcome'] == 'returned']
     for x in recs:
         if x['outcome'] != 'returned':
             c.violation(x, 'shell:no-report:' + x['outcome'])
     verdicts = c.validate('ShellObs: single-letter messages of the shell land on the letters in the LaTeX file', 'ShellObs', ok, project=shell14.project)
+    glued = re.compile(r'\w(\w)-\1-\1|(\w)-\2-\2\w')
+    nglue = 0
     for x in ok:
         v = verdicts[x['id']]['c14']
         c.nontrivial.add(hash((''.join(x['src']), x['mode'])))
+        # a placeholder glued to a neighbouring letter (also through vanishing markup: a\label{k}\foreignlanguage...) is not
+        # recognised as the accepted pattern, its letters then ARE isolated letters of the plain text: no expectation
+        if v != 'ok' and any(glued.search(chars.dec(p['text'])) for p in x.get('parts') or []):
+            nglue += 1
+            continue
         if v != 'ok':
             c.violation(x, 'shell:' + v, extra={'text': chars.dec(x['src'])})
     c.extra['shell_level_cases'] = len(ok)
+    c.extra['shell_level_cases_without_expectation_glued_placeholder'] = nglue
 
 
 def run(prop, tier, seed, replay=None):
@@ -114,6 +128,10 @@ def run(prop, tier, seed, replay=None):
     cases = []
     if replay:
         cs = json.load(open(replay))['case']
+        if 'txt' not in cs:      # a case of the shell phase
+            shell_judge(c, [{k: cs[k] for k in ('id', 'doc', 'src', 'mode', 'ml', 'mainlang', 'single', 'ltflag', 'flag')}])
+            c.exhaustive = False
+            return c.finish()
         cases = [dict(id=0, txt=cs['txt'], accept=cs['accept_raw'], mode=cs['mode'])]
     else:
         texts = []
